@@ -1,27 +1,30 @@
 /-
   C19, rounded cone — `Gen.sdf.RoundedCone` (regenerated from /repo/math/sdf/rounded_cone.go on every run) at ℝ.
 
-  Guard.  Every theorem below needs exactly ONE hypothesis on the parameters,
+  ALL parameters.  The sign, zero-set, Lipschitz and exact-distance theorems named `…_all` hold for every
+  `a b r1 r2` (including `a = b`, nested balls, negative radii: an empty ball changes nothing).  The source has two
+  regimes, separated exactly by the guard
 
-      hg : |r1 − r2| < a.Distance b          (the radii differ by less than the axis length)
+      hg : |r1 − r2| < a.Distance b          (the radii differ by less than the axis length; ⇔ `a2 > 0`, `Cone.a2_nonpos_iff`)
 
-  which implies `a ≠ b`.  No sign condition on `r1`, `r2` is needed (with a negative interpolated radius the
-  corresponding ball is empty and the statements stay true).  Outside the guard neither ball's boundary is
-  tangent to a common cone: one ball contains the other, `a2 = l2 − rr² ≤ 0`, the side branch takes the square
-  root of a non-positive number (NaN in float64, 0 in ℝ), and the sign claim is FALSE: see
-  `roundedCone_guard_needed` (a point strictly inside the big ball with a positive field value).
+  * under the guard the closure is Quilez' three-branch formula: `roundedCone_profile` (2-D profile of cylindrical
+    coordinates) and the `…_profile` sign/zero forms need `hg`;
+  * otherwise one ball contains the other (or touches it from inside) and the source returns the larger ball's sphere
+    field: `roundedCone_nested`, `roundedCone_same_centre`.
+  In BOTH regimes the field is the MINIMUM over `t ∈ [0, 1]` of `|p − (a + t(b − a))| − (r1 + t(r2 − r1))`
+  (`roundedCone_isLeast_all`), from which everything else follows: a minimum of 1-Lipschitz functions of `p` is
+  1-Lipschitz, and it is negative exactly when some member is.
+
+  History.  The early return for nested balls was added to /repo (commit b302544) after this proof found that the bare
+  formula is wrong outside the guard: `a2 = l2 − rr² ≤ 0`, the side branch takes the square root of a non-positive
+  number, and the sign is wrong — `roundedCone_guard_needed`, `roundedCone_guard_sharp` are closed witnesses about
+  `coneFormulaOld`, a local copy of the closure body without the early return.
 
   Branch tests.  The two tests of the source, `sign(z)·a2·z2 > k` and `sign(y)·a2·y2 < k`, are equivalent — exactly,
   with no boundary case lost, because `x ↦ sign x · x²` is strictly increasing — to `ℓ > c·L` and `ℓ < 0` for the
   single affine functional `ℓ = c·h − s·ρ` of the cylindrical coordinates (`Cone.test1_iff`, `Cone.test2_iff`).
   On the two boundary lines `ℓ = 0`, `ℓ = c·L` the source takes the slanted-side formula; the adjacent cap formula
   has the same value there (`coneProfile_boundary_a`, `coneProfile_boundary_b`), so the profile is continuous.
-
-  Method for sign / zero set / Lipschitz: the field is the MINIMUM over `t ∈ [0, 1]` of
-  `|p − (a + t(b − a))| − (r1 + t(r2 − r1))` (`roundedCone_isLeast`): a lower bound of every member
-  (Cauchy–Schwarz on the side, a monotonicity argument in the caps) that is attained at the clamped parameter
-  `t = ℓ/(c·L)`.  A minimum of 1-Lipschitz functions of `p` is 1-Lipschitz, and it is negative exactly when some
-  member is.
 -/
 import PolyVerif.Props.C19
 import PolyVerif.Lemmas.RoundedCone
@@ -123,57 +126,57 @@ theorem coneProfile_boundary_b {L s c r1 r2 h ρ : ℝ} (hsc : s ^ 2 + c ^ 2 = 1
   rw [coneProfile_boundary_a hsc hc hρ (h := h - L) (by linarith)]
   linarith
 
-/-! ### rounded cone: the field is the least gap to the balls along the axis -/
+/-! ### rounded cone, ALL parameters: the field is the least gap to the balls along the axis -/
 
 /-- lower bound: for every `t ∈ [0, 1]` the field is at most the signed gap to the ball centred at
     `a + t(b − a)` with the linearly interpolated radius `r1 + t(r2 − r1)` -/
-theorem roundedCone_le_ball (a b : P3) (r1 r2 : ℝ) (hg : |r1 - r2| < a.Distance b) (p : P3)
+theorem roundedCone_le_ball_all (a b : P3) (r1 r2 : ℝ) (p : P3)
     (t : ℝ) (h0 : 0 ≤ t) (h1 : t ≤ 1) :
     RoundedCone a b r1 r2 p ≤ p.Distance (segPoint a b t) - (r1 + t * (r2 - r1)) :=
-  Cone.roundedCone_le_ball a b r1 r2 hg p h0 h1
+  Cone.roundedCone_le_ball a b r1 r2 p h0 h1
 
 /-- … and the bound is attained -/
-theorem roundedCone_attained (a b : P3) (r1 r2 : ℝ) (hg : |r1 - r2| < a.Distance b) (p : P3) :
+theorem roundedCone_attained_all (a b : P3) (r1 r2 : ℝ) (p : P3) :
     ∃ t, 0 ≤ t ∧ t ≤ 1 ∧ RoundedCone a b r1 r2 p = p.Distance (segPoint a b t) - (r1 + t * (r2 - r1)) :=
-  Cone.roundedCone_attained a b r1 r2 hg p
+  Cone.roundedCone_attained a b r1 r2 p
 
 /-- the field is the minimum over the family of balls -/
-theorem roundedCone_isLeast (a b : P3) (r1 r2 : ℝ) (hg : |r1 - r2| < a.Distance b) (p : P3) :
+theorem roundedCone_isLeast_all (a b : P3) (r1 r2 : ℝ) (p : P3) :
     IsLeast {d | ∃ t, 0 ≤ t ∧ t ≤ 1 ∧ d = p.Distance (segPoint a b t) - (r1 + t * (r2 - r1))}
       (RoundedCone a b r1 r2 p) := by
   constructor
-  · obtain ⟨t, h0, h1, h⟩ := roundedCone_attained a b r1 r2 hg p
+  · obtain ⟨t, h0, h1, h⟩ := roundedCone_attained_all a b r1 r2 p
     exact ⟨t, h0, h1, h⟩
   · rintro d ⟨t, h0, h1, rfl⟩
-    exact roundedCone_le_ball a b r1 r2 hg p t h0 h1
+    exact roundedCone_le_ball_all a b r1 r2 p t h0 h1
 
 /-! ### rounded cone: 1-Lipschitz -/
 
 /-- (2) the rounded cone is 1-Lipschitz -/
-theorem roundedCone_lipschitz (a b : P3) (r1 r2 : ℝ) (hg : |r1 - r2| < a.Distance b) :
+theorem roundedCone_lipschitz_all (a b : P3) (r1 r2 : ℝ) :
     Lipschitz1 (RoundedCone a b r1 r2) := by
   intro p q
-  obtain ⟨tp, hp0, hp1, hp⟩ := roundedCone_attained a b r1 r2 hg p
-  obtain ⟨tq, hq0, hq1, hq⟩ := roundedCone_attained a b r1 r2 hg q
-  have lp := roundedCone_le_ball a b r1 r2 hg p tq hq0 hq1
-  have lq := roundedCone_le_ball a b r1 r2 hg q tp hp0 hp1
+  obtain ⟨tp, hp0, hp1, hp⟩ := roundedCone_attained_all a b r1 r2 p
+  obtain ⟨tq, hq0, hq1, hq⟩ := roundedCone_attained_all a b r1 r2 q
+  have lp := roundedCone_le_ball_all a b r1 r2 p tq hq0 hq1
+  have lq := roundedCone_le_ball_all a b r1 r2 q tp hp0 hp1
   have t1 := V3.distance_triangle p q (segPoint a b tq)
   have t2 := V3.distance_triangle q p (segPoint a b tp)
   rw [V3.distance_comm q p] at t2
   rw [abs_le]; constructor <;> linarith
 
 /-- exact-distance lower bound: no surface point is closer to `p` than `|f p|` -/
-theorem roundedCone_exact_le (a b : P3) (r1 r2 : ℝ) (hg : |r1 - r2| < a.Distance b) (p s : P3)
+theorem roundedCone_exact_le_all (a b : P3) (r1 r2 : ℝ) (p s : P3)
     (hs : RoundedCone a b r1 r2 s = 0) : |RoundedCone a b r1 r2 p| ≤ p.Distance s :=
-  lipschitz_zero_bound (roundedCone_lipschitz a b r1 r2 hg) p s hs
+  lipschitz_zero_bound (roundedCone_lipschitz_all a b r1 r2) p s hs
 
 /-- exact distance, attained, OUTSIDE or ON the shape (radii ≥ 0): the radial projection of `p` onto the nearest ball of
     the family is a surface point at distance exactly `f p`; with `roundedCone_exact_le`, `f p` IS the distance from
     `p` to the surface there -/
-theorem roundedCone_exact_attained_outside (a b : P3) (r1 r2 : ℝ) (hg : |r1 - r2| < a.Distance b)
+theorem roundedCone_exact_attained_outside_all (a b : P3) (r1 r2 : ℝ)
     (hr1 : 0 ≤ r1) (hr2 : 0 ≤ r2) (p : P3) (hp : 0 ≤ RoundedCone a b r1 r2 p) :
     ∃ s : P3, RoundedCone a b r1 r2 s = 0 ∧ p.Distance s = RoundedCone a b r1 r2 p := by
-  obtain ⟨t, h0, h1, ht⟩ := roundedCone_attained a b r1 r2 hg p
+  obtain ⟨t, h0, h1, ht⟩ := roundedCone_attained_all a b r1 r2 p
   set c := segPoint a b t with hc
   set r := r1 + t * (r2 - r1) with hr
   have hr0 : 0 ≤ r := by
@@ -193,9 +196,9 @@ theorem roundedCone_exact_attained_outside (a b : P3) (r1 r2 : ℝ) (hg : |r1 - 
         rw [← dist_toE, toE_add, toE_scale, toE_sub, add_sub_cancel_left, norm_smul, dist_toE, ← hd,
           Real.norm_eq_abs, abs_of_nonneg (div_nonneg hr0 hdpos.le)]
         field_simp
-      have up := roundedCone_le_ball a b r1 r2 hg (c.Add ((p.Sub c).Scale (r / d))) t h0 h1
+      have up := roundedCone_le_ball_all a b r1 r2 (c.Add ((p.Sub c).Scale (r / d))) t h0 h1
       rw [← hc, ← hr, dist_c] at up
-      have lo := roundedCone_lipschitz a b r1 r2 hg p (c.Add ((p.Sub c).Scale (r / d)))
+      have lo := roundedCone_lipschitz_all a b r1 r2 p (c.Add ((p.Sub c).Scale (r / d)))
       rw [dist_p] at lo
       have := (abs_le.mp lo).2
       linarith
@@ -212,47 +215,96 @@ theorem roundedCone_exact_attained_outside (a b : P3) (r1 r2 : ℝ) (hg : |r1 - 
 /-! ### rounded cone: sign and zero set -/
 
 /-- (3) negative exactly inside the union of the open balls `B(a + t(b − a), r1 + t(r2 − r1))`, `t ∈ [0, 1]` -/
-theorem roundedCone_neg_iff (a b : P3) (r1 r2 : ℝ) (hg : |r1 - r2| < a.Distance b) (p : P3) :
+theorem roundedCone_neg_iff_all (a b : P3) (r1 r2 : ℝ) (p : P3) :
     RoundedCone a b r1 r2 p < 0 ↔
       ∃ t, 0 ≤ t ∧ t ≤ 1 ∧ p.Distance (segPoint a b t) < r1 + t * (r2 - r1) := by
   constructor
   · intro h
-    obtain ⟨t, h0, h1, ht⟩ := roundedCone_attained a b r1 r2 hg p
+    obtain ⟨t, h0, h1, ht⟩ := roundedCone_attained_all a b r1 r2 p
     exact ⟨t, h0, h1, by linarith⟩
   · rintro ⟨t, h0, h1, ht⟩
-    have := roundedCone_le_ball a b r1 r2 hg p t h0 h1
+    have := roundedCone_le_ball_all a b r1 r2 p t h0 h1
     linarith
 
 /-- zero exactly on the boundary of that union: some ball of the family has `p` on its sphere and none has `p` inside -/
-theorem roundedCone_zero_iff (a b : P3) (r1 r2 : ℝ) (hg : |r1 - r2| < a.Distance b) (p : P3) :
+theorem roundedCone_zero_iff_all (a b : P3) (r1 r2 : ℝ) (p : P3) :
     RoundedCone a b r1 r2 p = 0 ↔
       ∃ t, 0 ≤ t ∧ t ≤ 1 ∧ p.Distance (segPoint a b t) = r1 + t * (r2 - r1) ∧
         ∀ t', 0 ≤ t' → t' ≤ 1 → r1 + t' * (r2 - r1) ≤ p.Distance (segPoint a b t') := by
   constructor
   · intro h
-    obtain ⟨t, h0, h1, ht⟩ := roundedCone_attained a b r1 r2 hg p
+    obtain ⟨t, h0, h1, ht⟩ := roundedCone_attained_all a b r1 r2 p
     refine ⟨t, h0, h1, by linarith, ?_⟩
     intro t' h0' h1'
-    have := roundedCone_le_ball a b r1 r2 hg p t' h0' h1'
+    have := roundedCone_le_ball_all a b r1 r2 p t' h0' h1'
     linarith
   · rintro ⟨t, h0, h1, ht, hmin⟩
-    have h2 := roundedCone_le_ball a b r1 r2 hg p t h0 h1
-    obtain ⟨t', h0', h1', ht'⟩ := roundedCone_attained a b r1 r2 hg p
+    have h2 := roundedCone_le_ball_all a b r1 r2 p t h0 h1
+    obtain ⟨t', h0', h1', ht'⟩ := roundedCone_attained_all a b r1 r2 p
     have h3 := hmin t' h0' h1'
     linarith
 
 /-- positive exactly strictly outside every closed ball of the family -/
-theorem roundedCone_pos_iff (a b : P3) (r1 r2 : ℝ) (hg : |r1 - r2| < a.Distance b) (p : P3) :
+theorem roundedCone_pos_iff_all (a b : P3) (r1 r2 : ℝ) (p : P3) :
     0 < RoundedCone a b r1 r2 p ↔
       ∀ t, 0 ≤ t → t ≤ 1 → r1 + t * (r2 - r1) < p.Distance (segPoint a b t) := by
   constructor
   · intro h t h0 h1
-    have := roundedCone_le_ball a b r1 r2 hg p t h0 h1
+    have := roundedCone_le_ball_all a b r1 r2 p t h0 h1
     linarith
   · intro h
-    obtain ⟨t, h0, h1, ht⟩ := roundedCone_attained a b r1 r2 hg p
+    obtain ⟨t, h0, h1, ht⟩ := roundedCone_attained_all a b r1 r2 p
     have := h t h0 h1
     linarith
+
+/-! ### the same under the guard (corollaries, kept under their original names) -/
+
+theorem roundedCone_le_ball (a b : P3) (r1 r2 : ℝ) (_hg : |r1 - r2| < a.Distance b) (p : P3)
+    (t : ℝ) (h0 : 0 ≤ t) (h1 : t ≤ 1) :
+    RoundedCone a b r1 r2 p ≤ p.Distance (segPoint a b t) - (r1 + t * (r2 - r1)) :=
+  roundedCone_le_ball_all a b r1 r2 p t h0 h1
+
+theorem roundedCone_attained (a b : P3) (r1 r2 : ℝ) (_hg : |r1 - r2| < a.Distance b) (p : P3) :
+    ∃ t, 0 ≤ t ∧ t ≤ 1 ∧ RoundedCone a b r1 r2 p = p.Distance (segPoint a b t) - (r1 + t * (r2 - r1)) :=
+  roundedCone_attained_all a b r1 r2 p
+
+theorem roundedCone_isLeast (a b : P3) (r1 r2 : ℝ) (_hg : |r1 - r2| < a.Distance b) (p : P3) :
+    IsLeast {d | ∃ t, 0 ≤ t ∧ t ≤ 1 ∧ d = p.Distance (segPoint a b t) - (r1 + t * (r2 - r1))}
+      (RoundedCone a b r1 r2 p) :=
+  roundedCone_isLeast_all a b r1 r2 p
+
+/-- (2) the rounded cone is 1-Lipschitz -/
+theorem roundedCone_lipschitz (a b : P3) (r1 r2 : ℝ) (_hg : |r1 - r2| < a.Distance b) :
+    Lipschitz1 (RoundedCone a b r1 r2) :=
+  roundedCone_lipschitz_all a b r1 r2
+
+theorem roundedCone_exact_le (a b : P3) (r1 r2 : ℝ) (_hg : |r1 - r2| < a.Distance b) (p s : P3)
+    (hs : RoundedCone a b r1 r2 s = 0) : |RoundedCone a b r1 r2 p| ≤ p.Distance s :=
+  roundedCone_exact_le_all a b r1 r2 p s hs
+
+theorem roundedCone_exact_attained_outside (a b : P3) (r1 r2 : ℝ) (_hg : |r1 - r2| < a.Distance b)
+    (hr1 : 0 ≤ r1) (hr2 : 0 ≤ r2) (p : P3) (hp : 0 ≤ RoundedCone a b r1 r2 p) :
+    ∃ s : P3, RoundedCone a b r1 r2 s = 0 ∧ p.Distance s = RoundedCone a b r1 r2 p :=
+  roundedCone_exact_attained_outside_all a b r1 r2 hr1 hr2 p hp
+
+/-- (3) negative exactly inside the union of the open balls `B(a + t(b − a), r1 + t(r2 − r1))`, `t ∈ [0, 1]` -/
+theorem roundedCone_neg_iff (a b : P3) (r1 r2 : ℝ) (_hg : |r1 - r2| < a.Distance b) (p : P3) :
+    RoundedCone a b r1 r2 p < 0 ↔
+      ∃ t, 0 ≤ t ∧ t ≤ 1 ∧ p.Distance (segPoint a b t) < r1 + t * (r2 - r1) :=
+  roundedCone_neg_iff_all a b r1 r2 p
+
+theorem roundedCone_zero_iff (a b : P3) (r1 r2 : ℝ) (_hg : |r1 - r2| < a.Distance b) (p : P3) :
+    RoundedCone a b r1 r2 p = 0 ↔
+      ∃ t, 0 ≤ t ∧ t ≤ 1 ∧ p.Distance (segPoint a b t) = r1 + t * (r2 - r1) ∧
+        ∀ t', 0 ≤ t' → t' ≤ 1 → r1 + t' * (r2 - r1) ≤ p.Distance (segPoint a b t') :=
+  roundedCone_zero_iff_all a b r1 r2 p
+
+theorem roundedCone_pos_iff (a b : P3) (r1 r2 : ℝ) (_hg : |r1 - r2| < a.Distance b) (p : P3) :
+    0 < RoundedCone a b r1 r2 p ↔
+      ∀ t, 0 ≤ t → t ≤ 1 → r1 + t * (r2 - r1) < p.Distance (segPoint a b t) :=
+  roundedCone_pos_iff_all a b r1 r2 p
+
+/-! ### rounded cone under the guard: sign and zero set in profile coordinates -/
 
 /-- sign in profile coordinates: inside the cap at `a`, below the slanted side, or inside the cap at `b` -/
 theorem roundedCone_neg_iff_profile (a b : P3) (r1 r2 : ℝ) (hg : |r1 - r2| < a.Distance b) (p : P3) :
@@ -366,54 +418,130 @@ theorem balls_union_eq_convexHull (a b : P3) (r1 r2 : ℝ) (hr1 : 0 < r1) (hr2 :
       rw [this]; ring
     linarith
 
-/-- (3') negative exactly inside the convex hull of the two open balls `B(a, r1)`, `B(b, r2)`
-    (= the interior of the convex hull of the two closed balls), for positive radii -/
-theorem roundedCone_neg_iff_convexHull (a b : P3) (r1 r2 : ℝ) (hg : |r1 - r2| < a.Distance b)
-    (hr1 : 0 < r1) (hr2 : 0 < r2) (p : P3) :
+/-- (3') ALL parameters with positive radii: negative exactly inside the convex hull of the two open balls
+    `B(a, r1)`, `B(b, r2)` (= the interior of the convex hull of the two closed balls) -/
+theorem roundedCone_neg_iff_convexHull_all (a b : P3) (r1 r2 : ℝ) (hr1 : 0 < r1) (hr2 : 0 < r2) (p : P3) :
     RoundedCone a b r1 r2 p < 0 ↔
       toE p ∈ convexHull ℝ (Metric.ball (toE a) r1 ∪ Metric.ball (toE b) r2) := by
-  rw [roundedCone_neg_iff a b r1 r2 hg, balls_union_eq_convexHull a b r1 r2 hr1 hr2]
+  rw [roundedCone_neg_iff_all a b r1 r2, balls_union_eq_convexHull a b r1 r2 hr1 hr2]
 
-/-! ### the guard is needed -/
+theorem roundedCone_neg_iff_convexHull (a b : P3) (r1 r2 : ℝ) (_hg : |r1 - r2| < a.Distance b)
+    (hr1 : 0 < r1) (hr2 : 0 < r2) (p : P3) :
+    RoundedCone a b r1 r2 p < 0 ↔
+      toE p ∈ convexHull ℝ (Metric.ball (toE a) r1 ∪ Metric.ball (toE b) r2) :=
+  roundedCone_neg_iff_convexHull_all a b r1 r2 hr1 hr2 p
 
-/-- outside the guard (`r1 − r2 > |b − a|`: the ball about `b` lies inside the ball about `a`) the source formula has
-    the wrong sign: a point strictly inside the big ball gets a positive value -/
+/-! ### nested or internally tangent balls (the complement of the guard) -/
+
+/-- the early return of the source: when one ball contains the other (or touches it from inside; also `a = b`)
+    the field is the larger ball's sphere field -/
+theorem roundedCone_nested (a b : P3) (r1 r2 : ℝ) (hg : ¬ |r1 - r2| < a.Distance b) :
+    RoundedCone a b r1 r2 = if r2 ≤ r1 then Sphere a r1 else Sphere b r2 :=
+  Cone.roundedCone_nested a b r1 r2 hg
+
+/-- nested case, sign: inside the larger ball -/
+theorem roundedCone_nested_neg_iff (a b : P3) (r1 r2 : ℝ) (hg : ¬ |r1 - r2| < a.Distance b) (p : P3) :
+    RoundedCone a b r1 r2 p < 0 ↔ if r2 ≤ r1 then p.Distance a < r1 else p.Distance b < r2 := by
+  rw [roundedCone_nested a b r1 r2 hg]
+  split_ifs <;> exact sphere_neg_iff _ _ _
+
+/-- `a = b` is covered (it violates the guard): the larger of the two concentric balls -/
+theorem roundedCone_same_centre (a : P3) (r1 r2 : ℝ) :
+    RoundedCone a a r1 r2 = Sphere a (max r1 r2) := by
+  have hg : ¬ |r1 - r2| < a.Distance a := by
+    rw [V3.distance_eq_zero.mpr rfl]; exact not_lt.mpr (abs_nonneg _)
+  rw [roundedCone_nested a a r1 r2 hg]
+  split_ifs with h
+  · rw [max_eq_left h]
+  · rw [max_eq_right (not_le.mp h).le]
+
+/-! ### the formula without the early return (the source before /repo commit b302544) is wrong outside the guard -/
+
+/-- the closure body alone — what `RoundedCone` computed for ALL parameters before the nested-balls early return
+    was added to the source (local copy for the two witnesses below; under the guard it is still the field) -/
+noncomputable def coneFormulaOld (a b : P3) (r1 r2 : ℝ) (p : P3) : ℝ :=
+  Cone.core ((b.Sub a).Dot (b.Sub a)) r1 r2 ((p.Sub a).Dot (b.Sub a))
+    (Gen.sdf.dot2 (((p.Sub a).Scale ((b.Sub a).Dot (b.Sub a))).Sub ((b.Sub a).Scale ((p.Sub a).Dot (b.Sub a)))))
+
+theorem roundedCone_eq_formulaOld (a b : P3) (r1 r2 : ℝ) (hg : |r1 - r2| < a.Distance b) (p : P3) :
+    RoundedCone a b r1 r2 p = coneFormulaOld a b r1 r2 p :=
+  Cone.roundedCone_eq_core a b r1 r2 hg p
+
+/-- outside the guard (`r1 − r2 > |b − a|`: the ball about `b` lies inside the ball about `a`) the bare formula has
+    the wrong sign: a point strictly inside the big ball gets a positive value (defect found by this proof, fixed in
+    /repo by the early return) -/
 theorem roundedCone_guard_needed :
-    ∃ (a b : P3) (r1 r2 : ℝ) (p : P3), a ≠ b ∧ 0 < r2 ∧ r2 < r1 ∧ p.Distance a < r1 ∧ 0 < RoundedCone a b r1 r2 p := by
+    ∃ (a b : P3) (r1 r2 : ℝ) (p : P3), a ≠ b ∧ 0 < r2 ∧ r2 < r1 ∧ p.Distance a < r1 ∧ 0 < coneFormulaOld a b r1 r2 p := by
   refine ⟨⟨0, 0, 0⟩, ⟨1, 0, 0⟩, 3, 1, ⟨-(5 / 2), 0, 0⟩, ?_, by norm_num, by norm_num, ?_, ?_⟩
   · intro h; have := congrArg V3.x h; simp at this
   · simp only [V3.Distance, V3.DistanceSquared, RS.sqrt_eq]
     rw [show ((0 : ℝ) - -(5 / 2)) * (0 - -(5 / 2)) + (0 - 0) * (0 - 0) + (0 - 0) * (0 - 0) = (5 / 2) ^ 2 by norm_num,
       Real.sqrt_sq (by norm_num)]
     norm_num
-  · have : RoundedCone (⟨0, 0, 0⟩ : P3) ⟨1, 0, 0⟩ 3 1 ⟨-(5 / 2), 0, 0⟩ = 5 / 2 := by
-      rw [Cone.roundedCone_eq_core]
-      simp only [V3.Sub, V3.Dot, V3.Scale, Gen.sdf.dot2, Cone.core, Cone.sign_eq]
+  · have : coneFormulaOld (⟨0, 0, 0⟩ : P3) ⟨1, 0, 0⟩ 3 1 ⟨-(5 / 2), 0, 0⟩ = 5 / 2 := by
+      simp only [coneFormulaOld, V3.Sub, V3.Dot, V3.Scale, Gen.sdf.dot2, Cone.core, Cone.sign_eq]
       norm_num
     rw [this]; norm_num
 
-/-- the guard is sharp: with internally tangent balls (`r1 − r2 = |b − a|`, so `a2 = 0`) a point on the axis strictly
-    outside both balls gets a negative value -/
+private theorem d01 : (⟨0, 0, 0⟩ : P3).Distance ⟨1, 0, 0⟩ = 1 := by
+  simp [V3.Distance, V3.DistanceSquared]
+
+private theorem dm30 : (⟨-3, 0, 0⟩ : P3).Distance ⟨0, 0, 0⟩ = 3 := by
+  simp only [V3.Distance, V3.DistanceSquared, RS.sqrt_eq]
+  rw [show ((0 : ℝ) - -3) * (0 - -3) + (0 - 0) * (0 - 0) + (0 - 0) * (0 - 0) = 3 ^ 2 by norm_num,
+    Real.sqrt_sq (by norm_num)]
+
+/-- the guard is sharp for the bare formula: with internally tangent balls (`r1 − r2 = |b − a|`, so `a2 = 0`) a point
+    on the axis strictly outside both balls gets a negative value -/
 theorem roundedCone_guard_sharp :
     ∃ (a b : P3) (r1 r2 : ℝ) (p : P3), |r1 - r2| = a.Distance b ∧ 0 < r2 ∧ r2 < r1 ∧
-      r1 < p.Distance a ∧ r2 < p.Distance b ∧ RoundedCone a b r1 r2 p < 0 := by
-  have d1 : (⟨0, 0, 0⟩ : P3).Distance ⟨1, 0, 0⟩ = 1 := by
-    simp [V3.Distance, V3.DistanceSquared]
-  have d2 : (⟨-3, 0, 0⟩ : P3).Distance ⟨0, 0, 0⟩ = 3 := by
-    simp only [V3.Distance, V3.DistanceSquared, RS.sqrt_eq]
-    rw [show ((0 : ℝ) - -3) * (0 - -3) + (0 - 0) * (0 - 0) + (0 - 0) * (0 - 0) = 3 ^ 2 by norm_num,
-      Real.sqrt_sq (by norm_num)]
+      r1 < p.Distance a ∧ r2 < p.Distance b ∧ coneFormulaOld a b r1 r2 p < 0 := by
   have d3 : (⟨-3, 0, 0⟩ : P3).Distance ⟨1, 0, 0⟩ = 4 := by
     simp only [V3.Distance, V3.DistanceSquared, RS.sqrt_eq]
     rw [show ((1 : ℝ) - -3) * (1 - -3) + (0 - 0) * (0 - 0) + (0 - 0) * (0 - 0) = 4 ^ 2 by norm_num,
       Real.sqrt_sq (by norm_num)]
-  refine ⟨⟨0, 0, 0⟩, ⟨1, 0, 0⟩, 2, 1, ⟨-3, 0, 0⟩, by rw [d1]; norm_num, by norm_num, by norm_num,
-    by rw [d2]; norm_num, by rw [d3]; norm_num, ?_⟩
-  have : RoundedCone (⟨0, 0, 0⟩ : P3) ⟨1, 0, 0⟩ 2 1 ⟨-3, 0, 0⟩ = -5 := by
-    rw [Cone.roundedCone_eq_core]
-    simp only [V3.Sub, V3.Dot, V3.Scale, Gen.sdf.dot2, Cone.core, Cone.sign_eq]
+  refine ⟨⟨0, 0, 0⟩, ⟨1, 0, 0⟩, 2, 1, ⟨-3, 0, 0⟩, by rw [d01]; norm_num, by norm_num, by norm_num,
+    by rw [dm30]; norm_num, by rw [d3]; norm_num, ?_⟩
+  have : coneFormulaOld (⟨0, 0, 0⟩ : P3) ⟨1, 0, 0⟩ 2 1 ⟨-3, 0, 0⟩ = -5 := by
+    simp only [coneFormulaOld, V3.Sub, V3.Dot, V3.Scale, Gen.sdf.dot2, Cone.core, Cone.sign_eq]
     norm_num
   rw [this]; norm_num
+
+/-- the regenerated (fixed) source at the second witness: `+1`, the true distance to the ball of radius 2 about `a` -/
+example : RoundedCone (⟨0, 0, 0⟩ : P3) ⟨1, 0, 0⟩ 2 1 ⟨-3, 0, 0⟩ = 1 := by
+  rw [roundedCone_nested _ _ _ _ (by rw [d01]; norm_num), if_pos (by norm_num), sphere_eq, dm30]; norm_num
+
+/-! ### VarryingThicknessLine = Union of the rounded cones of consecutive line points -/
+
+/-- line.go:22 `VarryingThicknessLine` (hand transcription of its loop; not regenerated, not corresponded):
+    the cones of consecutive `(point, radius)` pairs, handed to `Union` -/
+noncomputable def varLineCones (pts : List (P3 × ℝ)) : List Field :=
+  (pts.zip pts.tail).map (fun se => RoundedCone se.1.1 se.2.1 se.1.2 se.2.2)
+
+theorem varLine_lipschitz (pts : List (P3 × ℝ)) (u : Field) (h : SdfOps.Union (varLineCones pts) = some u) :
+    Lipschitz1 u := by
+  refine union_lipschitz _ u h ?_
+  intro f hf
+  obtain ⟨se, -, rfl⟩ := List.mem_map.mp hf
+  exact roundedCone_lipschitz_all _ _ _ _
+
+/-- negative exactly inside the union, over the consecutive pairs, of the balls along the segment with linearly
+    interpolated radius — for ALL radii and points (repeated points included) -/
+theorem varLine_neg_iff (pts : List (P3 × ℝ)) (u : Field) (h : SdfOps.Union (varLineCones pts) = some u) (p : P3) :
+    u p < 0 ↔ ∃ se ∈ pts.zip pts.tail, ∃ t, 0 ≤ t ∧ t ≤ 1 ∧
+      p.Distance (segPoint se.1.1 se.2.1 t) < se.1.2 + t * (se.2.2 - se.1.2) := by
+  rw [union_neg_iff _ u h]
+  constructor
+  · rintro ⟨f, hf, hneg⟩
+    obtain ⟨se, hse, rfl⟩ := List.mem_map.mp hf
+    exact ⟨se, hse, (roundedCone_neg_iff_all _ _ _ _ p).mp hneg⟩
+  · rintro ⟨se, hse, ht⟩
+    exact ⟨_, List.mem_map.mpr ⟨se, hse, rfl⟩, (roundedCone_neg_iff_all _ _ _ _ p).mpr ht⟩
+
+/-- at least two line points give a field (fewer: the source panics / `Union` of nothing is `none`) -/
+theorem varLine_isSome (p0 p1 : P3 × ℝ) (rest : List (P3 × ℝ)) :
+    SdfOps.Union (varLineCones (p0 :: p1 :: rest)) ≠ none := by
+  rw [Ne, union_none_iff]; simp [varLineCones]
 
 /-! ### non-vacuity: concrete instances of the guard, one surface point in each of the three regions -/
 
@@ -429,25 +557,25 @@ example : Lipschitz1 (RoundedCone (⟨0, 0, 0⟩ : P3) ⟨5, 0, 0⟩ 4 1) := rou
 
 /-- slanted side: `(4, 2, 0)` is the point of the side above the axis point `τ = 5/2` -/
 example : RoundedCone (⟨0, 0, 0⟩ : P3) ⟨5, 0, 0⟩ 4 1 ⟨4, 2, 0⟩ = 0 := by
-  rw [Cone.roundedCone_eq_core]
+  rw [Cone.roundedCone_eq_core _ _ _ _ cone_example_guard]
   simp only [V3.Sub, V3.Dot, V3.Scale, Gen.sdf.dot2, Cone.core, Cone.sign_eq]
   norm_num
 
 /-- cap at `a`: `(-4, 0, 0)` -/
 example : RoundedCone (⟨0, 0, 0⟩ : P3) ⟨5, 0, 0⟩ 4 1 ⟨-4, 0, 0⟩ = 0 := by
-  rw [Cone.roundedCone_eq_core]
+  rw [Cone.roundedCone_eq_core _ _ _ _ cone_example_guard]
   simp only [V3.Sub, V3.Dot, V3.Scale, Gen.sdf.dot2, Cone.core, Cone.sign_eq]
   norm_num
 
 /-- cap at `b`: `(6, 0, 0)` -/
 example : RoundedCone (⟨0, 0, 0⟩ : P3) ⟨5, 0, 0⟩ 4 1 ⟨6, 0, 0⟩ = 0 := by
-  rw [Cone.roundedCone_eq_core]
+  rw [Cone.roundedCone_eq_core _ _ _ _ cone_example_guard]
   simp only [V3.Sub, V3.Dot, V3.Scale, Gen.sdf.dot2, Cone.core, Cone.sign_eq]
   norm_num
 
 /-- an interior point (on the axis) is negative, via the union-of-balls characterisation -/
 example : RoundedCone (⟨0, 0, 0⟩ : P3) ⟨5, 0, 0⟩ 4 1 ⟨1, 0, 0⟩ < 0 := by
-  rw [roundedCone_neg_iff _ _ _ _ cone_example_guard]
+  rw [roundedCone_neg_iff_all]
   refine ⟨0, le_rfl, by norm_num, ?_⟩
   simp only [segPoint, V3.Distance, V3.DistanceSquared, V3.Add, V3.Sub, V3.Scale, RS.sqrt_eq]
   norm_num
